@@ -65,7 +65,7 @@ Proof.
   - apply (fh_plain LC _ [_; _]); [reflexivity | reflexivity |].
     apply groups_one. apply (group_intro _ [] _); [reflexivity | constructor | reflexivity].
   - apply (io_init LC _ [] _ [] _ [] _ [] []);
-      [reflexivity | reflexivity | reflexivity | reflexivity | constructor | reflexivity | constructor].
+      [reflexivity | reflexivity | constructor | reflexivity | constructor | reflexivity | constructor].
 Qed.
 
 Example abut_scan_equals_spec :
